@@ -718,7 +718,7 @@ BIG_RULE = (' Large forests: a few histories with thousands of leaves (one block
             'instance shows are validated by TLC (spec/CoreTrace.tla); positions of 400 random slots, proofs of 100 random leaves '
             '(pointer forest = map forest, verified), GetProofSubset with 70 wants in shuffled order against the prover, and a '
             'serialization round trip of the partial forest (node by node, flags included) are compared across implementations.')
-for _p in ('C01', 'C02', 'C10', 'C13', 'C14'):
+for _p in ('C01', 'C02', 'C05', 'C10', 'C13', 'C14'):
     PLAN[_p]['stages'] = (lambda f: (lambda tier, seed: f(tier, seed) + [drive_big(tier)]))(PLAN[_p]['stages'])
     PLAN[_p]['rule'] += BIG_RULE
     for _t in ('quick', 'thorough'):
@@ -810,9 +810,10 @@ def light_wide(tier, acts, name='light_wide'):
     q = tier == 'quick'
     u = 1 if 'undoblock' in acts else 0
     if q:
-        return [light(name, acts, 16, 2, stack=u, und=u, minn=14, initdead=0, initheld=2, timeout=900)]
-    return [light(name, acts, 16, 5, stack=u, und=u, minn=11, initdead=0, initheld=2, timeout=7200),
-            light(name + '_dead', acts, 16, 3, stack=u, und=u, minn=13, initdead=1, initheld=1, timeout=7200)]
+        return [light(name, acts, 16, 2, stack=1, und=u, minn=14, initdead=0, initheld=2, timeout=900)]
+    # (stack=1 also without undo: in a wide configuration a block is taken from initial states only, recognised by the empty stack)
+    return [light(name, acts, 16, 5, stack=1, und=u, minn=11, initdead=0, initheld=2, timeout=7200),
+            light(name + '_dead', acts, 16, 3, stack=1, und=u, minn=13, initdead=1, initheld=1, timeout=7200)]
 
 
 WIDE_LIGHT_RULE = (' Stage light_wide: wide configurations of spec/LightClient.tla - every state with 14-15 (thorough: 11-15) leaves, all live '
@@ -846,3 +847,20 @@ ENCUNDO_RULE = (' Stage core_enc_then_undo: with TrackEnc the encoding of the la
 for _p in ('C05', 'C06'):
     PLAN[_p]['stages'] = (lambda f: (lambda tier, seed: f(tier, seed) + [encundo(tier)]))(PLAN[_p]['stages'])
     PLAN[_p]['rule'] += ENCUNDO_RULE
+
+
+# --------------------------------------------------------------------------- leaf hashes that share a prefix
+# Leaf hashes are supplied by the user.  The light-client path (Stump.Update, Proof.Update, Proof.Undo) keys nothing by a
+# hash prefix; replaying the light-client behaviours with leaf hashes that all start with the same 12 bytes catches code
+# that starts to (the pointer forest does, by design, and does not take part).
+def light_prefix(tier, acts):
+    q = tier == 'quick'
+    u = 1 if 'undoblock' in acts else 0
+    return light('light_prefix', acts, 5 if q else 6, 3, stack=u, und=u, x='prefix=1')
+
+
+PREFIX_RULE = (' Stage light_prefix: the same behaviours with leaf hashes that share their first 12 bytes (symbolic hashing option '
+               'prefix=1; the expectations are unchanged: distinct leaves stay distinct 32-byte values).')
+for _p, _acts in (('C07', ['block']), ('C08', ['block', 'undoblock'])):
+    PLAN[_p]['stages'] = (lambda f, a: (lambda tier, seed: f(tier, seed) + [light_prefix(tier, a)]))(PLAN[_p]['stages'], _acts)
+    PLAN[_p]['rule'] += PREFIX_RULE
